@@ -75,6 +75,11 @@ def _is_reset(line):
     return line.startswith('{"ev":"reset"')
 
 
+def _is_boundary(line):
+    # a shard may start at a new history or at a self-contained mid-operation record
+    return line.startswith('{"ev":"reset"') or line.startswith('{"a":{')
+
+
 def _validate_file(path, tag):
     """One JVM over one ndjson piece.  Returns (n_processed_ok, [failure dicts])."""
     wd = os.path.join(os.path.dirname(path), "meta-" + tag)
@@ -107,7 +112,7 @@ def validate(rep, trace, ranges, shards=8):
     pieces, start = [], 0
     while start < n:
         j = min(n, start + target)
-        while j < n and not _is_reset(lines[j]):
+        while j < n and not _is_boundary(lines[j]):
             j += 1
         pieces.append((start, j))
         start = j
@@ -132,26 +137,37 @@ def validate(rep, trace, ranges, shards=8):
             idx = a + fl["l"] - 1          # global 0-based index of the failing record
             rec = json.loads(lines[idx])
             name, conds = next((nm, cs) for x, y, nm, cs in ranges if x <= idx < y)
-            # the history: back to the last reset
-            k = idx
-            while k >= 0 and not _is_reset(lines[k]):
-                k -= 1
-            reset = json.loads(lines[k])
-            hist = [json.loads(x)["op"] for x in lines[k + 1:idx] if '"ev":"step"' in x[:14]]
-            if rec["ev"] == "step":
-                m = idx + 1
-                while m < n and not _is_reset(lines[m]):
-                    m += 1
-                skipped += m - idx - 1
-                per[name]["skipped"] += m - idx - 1
             why = sorted(fl["why"])
-            op = rec.get("op", {"op": "reset"})
-            key = {"op": op.get("op"), "c": op.get("c", ""), "a": op.get("a", ""), "ov": op.get("ov", False),
-                   "ii": op.get("ii", False), "ks": op.get("ks", False), "why": " | ".join(why),
-                   "symptom": _symptom(reset["init"], rec),
-                   "init": reset["init"], "h": [_short(o) for o in hist]}
-            replay_obj = {"init": reset["init"], "conds": conds.split(","), "h": hist,
-                          "op": rec.get("op"), "observed": rec, "why": why}
+            if rec["ev"] == "mid":
+                # self-contained: a signal arriving between two system calls of one operation
+                op = rec["op"]
+                key = {"ev": "mid", "op": op["op"], "c": op.get("c", ""), "a": op.get("a", ""), "ov": op.get("ov", False),
+                       "ii": op.get("ii", False), "ks": op.get("ks", False), "sig": rec["sig"], "k": rec["k"],
+                       "n": rec["n"], "same_signal": rec["sig"] == op.get("c", ""), "why": " | ".join(why),
+                       "outcomes": f"before:{rec['a']['proc']} after:{rec['b']['proc']} during:{rec['m']['proc']}",
+                       "init": rec["init"], "h": [_short(o) for o in rec["h"]]}
+                replay_obj = {"init": rec["init"], "conds": conds.split(","), "h": rec["h"], "op": op,
+                              "mid": {"sig": rec["sig"], "k": rec["k"]}, "observed": rec, "why": why}
+            else:
+                # the history: back to the last reset
+                k = idx
+                while k >= 0 and not _is_reset(lines[k]):
+                    k -= 1
+                reset = json.loads(lines[k])
+                hist = [json.loads(x)["op"] for x in lines[k + 1:idx] if '"ev":"step"' in x[:14]]
+                if rec["ev"] == "step":
+                    m = idx + 1
+                    while m < n and not _is_boundary(lines[m]):
+                        m += 1
+                    skipped += m - idx - 1
+                    per[name]["skipped"] += m - idx - 1
+                op = rec.get("op", {"op": "reset"})
+                key = {"ev": rec["ev"], "op": op.get("op"), "c": op.get("c", ""), "a": op.get("a", ""), "ov": op.get("ov", False),
+                       "ii": op.get("ii", False), "ks": op.get("ks", False), "why": " | ".join(why),
+                       "symptom": _symptom(reset["init"], rec),
+                       "init": reset["init"], "h": [_short(o) for o in hist]}
+                replay_obj = {"init": reset["init"], "conds": conds.split(","), "h": hist,
+                              "op": rec.get("op"), "observed": rec, "why": why}
             rep.violation(key, f"{name}: step not allowed by TrapAbs: {why}", replay_obj)
             nfail += 1
             per[name]["rejected"] += 1
@@ -181,7 +197,7 @@ def _short(o):
     return s
 
 
-def _generate(wd, cfg, conds, name, workers):
+def _generate(wd, cfg, conds, name, workers, mid):
     """TLC model check + state enumeration, then replay on the real TrapSet."""
     gen = os.path.join(wd, name + ".states.ndjson")
     r = vlib.tlc("Trap", cfg, workers=workers, json_out=gen, coverage=(name in QUICK_NAMES), timeout=2400,
@@ -191,6 +207,14 @@ def _generate(wd, cfg, conds, name, workers):
     trace = os.path.join(wd, name + ".trace.ndjson")
     _, _, err = vlib.run_harness(PKG, ["replay", "--conds", conds, "--in", gen, "--out", trace])
     st = json.loads(err.strip().splitlines()[-1])
+    st["mid_trace"] = None
+    if mid:
+        # a signal arriving between two system calls of one operation
+        mtrace = os.path.join(wd, name + ".mid.ndjson")
+        _, _, err = vlib.run_harness(PKG, ["midop", "--conds", conds, "--in", gen, "--out", mtrace])
+        ms = json.loads(err.strip().splitlines()[-1])
+        st["mid"], st["mid_cases"] = ms["records"], ms["cases"]
+        st["mid_trace"] = mtrace
     os.remove(gen)
     return r, st, trace
 
@@ -303,7 +327,7 @@ def run(tier):
         os.makedirs(os.path.join(wd, d), exist_ok=True)
     # P1 + P2: model check / enumerate / replay, three configurations at a time
     with ThreadPoolExecutor(max_workers=3) as ex:
-        gens = list(ex.map(lambda c: _generate(wd, c[0], c[1], c[2], 4), configs))
+        gens = list(ex.map(lambda c: _generate(wd, c[0], c[1], c[2], 4, c[2] in QUICK_NAMES), configs))
     # P3 input: random long histories over all eleven conditions
     rtrace = os.path.join(wd, "random.trace.ndjson")
     runs, steps = (400, 40) if tier == "quick" else (6000, 60)
@@ -325,6 +349,18 @@ def run(tier):
             ranges.append((pos, pos + n, name, conds))
             pos += n
             os.remove(trace)
+        nmid = 0
+        for (cfg, conds, name), (r, st, trace) in zip(configs, gens):
+            if st.get("mid_trace"):
+                n = 0
+                with open(st["mid_trace"]) as f:
+                    for line in f:
+                        out.write(line)
+                        n += 1
+                ranges.append((pos, pos + n, "mid:" + name, conds))
+                pos += n
+                nmid += n
+                os.remove(st["mid_trace"])
     info = validate(rep, alltrace, ranges, shards=8 if tier == "quick" else 12)
     os.remove(alltrace)
     vlib.log(f"[p3] {info['events']} records validated against TrapAbs in {info['wall']:.1f}s "
@@ -346,6 +382,8 @@ def run(tier):
                            "records": pc["records"], "rejected": pc["rejected"],
                            "skipped_downstream_of_a_rejected_step": pc["skipped"], "drift": st["drift"]})
     p2 = phase2(rep, wd, tier)
+    vlib.log(f"[p2] signal arriving between two system calls of one operation: {nmid} records, "
+             f"{sum(v['rejected'] for k, v in info['per_range'].items() if k.startswith('mid:'))} rejected")
     rr = info["per_range"]["random"]
     vlib.log(f"[p3] random histories: {runs} histories of <= {steps} operations over {len(ALL_CONDS)} conditions, "
              f"{rr['records']} records, {rr['rejected']} rejected")
@@ -370,6 +408,9 @@ def run(tier):
         "records_rejected": info["failures"],
         "records_skipped_downstream_of_a_rejected_step": info["skipped"],
         "drift": drift,
+        "mid_operation_records": nmid,
+        "mid_operation_cases": sum(st.get("mid_cases", 0) for _, st, _ in gens),
+        "mid_operation_rejected": sum(v["rejected"] for k, v in info["per_range"].items() if k.startswith("mid:")),
         "whole_shell": p2,
     }, time.time() - t0, violations=len(rep.violations), assumptions=[
         "the inherited signal mask is empty; inherited dispositions range over {default, ignored} per signal",
@@ -396,7 +437,8 @@ def replay(path):
     wd = vlib.workdir(PID + "-replay")
     src = os.path.join(wd, "in.ndjson")
     with open(src, "w") as f:
-        f.write(json.dumps({"init": rec["init"], "conds": rec["conds"], "h": rec["h"], "op": rec["op"]}) + "\n")
+        f.write(json.dumps({"init": rec["init"], "conds": rec["conds"], "h": rec["h"], "op": rec["op"],
+                            "mid": rec.get("mid")}) + "\n")
     t = os.path.join(wd, "one.ndjson")
     vlib.run_harness(PKG, ["redo", "--in", src, "--out", t])
     fails = _validate_file(t, "replay")
